@@ -30,6 +30,28 @@ def concatenate_arrays(*arrays):
     return buffer_as_struct.view('S{0}'.format(total_size))
 
 
+def _common_storage(left, right):
+    """
+    Bring two key columns to a common storage type, so that keys that are
+    equal by value also have equal bytes.
+    """
+    left = np.atleast_1d(np.asarray(left))
+    right = np.atleast_1d(np.asarray(right))
+    if left.dtype.kind in 'US' and right.dtype.kind in 'US':
+        dtype = np.promote_types(left.dtype, right.dtype)
+    elif left.dtype.kind in 'biuf' and right.dtype.kind in 'biuf':
+        dtype = np.result_type(left.dtype, right.dtype)
+    else:
+        return left, right
+    left = left.astype(dtype)
+    right = right.astype(dtype)
+    if dtype.kind == 'f':
+        # -0.0 and 0.0 are equal but have different bytes
+        left = left + 0.0
+        right = right + 0.0
+    return left, right
+
+
 def get_mask_with_key_joins(data, key_joins, subset_state, view=None):
     """
     Given a dataset and a subset state, check whether the subset state
@@ -66,8 +88,10 @@ def get_mask_with_key_joins(data, key_joins, subset_state, view=None):
             key_right_all = []
 
             for cid1_i, cid2_i in zip(cid1, cid2):
-                key_left_all.append(data.get_data(cid1_i, view=view).ravel())
-                key_right_all.append(other.get_data(cid2_i, view=mask_right).ravel())
+                key_left_i, key_right_i = _common_storage(data.get_data(cid1_i, view=view).ravel(),
+                                                         other.get_data(cid2_i, view=mask_right).ravel())
+                key_left_all.append(key_left_i)
+                key_right_all.append(key_right_i)
 
             key_left_all = concatenate_arrays(*key_left_all)
             key_right_all = concatenate_arrays(*key_right_all)
